@@ -158,6 +158,106 @@ impl McNode {
 		}
 	}
 
+	/// A second, independent incarnation of a node ("shadow") restored from an earlier durable
+	/// state: same seed (hence same keys), its own signer policy state with the revocation check off,
+	/// its own persister / broadcaster. Models a counterparty that kept old state.
+	pub fn shadow_from_bytes(
+		tag: u8, cfg: UserConfig, feerate: u32, manager_bytes: &[u8], monitor_bytes: &[(ChannelId, Vec<u8>)],
+		best_chain: &[bitcoin::Block],
+	) -> Result<McNode, String> {
+		let mut seed = [tag; 32];
+		seed[31] = 1;
+		let mut ki = TestKeysInterface::new(&seed, NETWORK);
+		ki.disable_revocation_policy_check = true;
+		ki.disable_all_state_policy_checks = true;
+		let keys = Arc::new(ki);
+		let logger = Arc::new(McLogger::new(tag.to_ascii_lowercase()));
+		let parts = McNodeParts {
+			keys: keys.clone(),
+			bc: Arc::new(McBroadcaster::new()),
+			fee: Arc::new(TestFeeEstimator::new(feerate)),
+			logger: logger.clone(),
+			persist: Arc::new(McPersist::new(logger.clone())),
+			chain_src: Arc::new(TestChainSource::new(NETWORK)),
+		};
+		let mon = build_mon(&parts, false);
+		let mut monitors: Vec<(ChannelId, ChannelMonitor<TestChannelSigner>)> = Vec::new();
+		for (cid, bytes) in monitor_bytes.iter() {
+			let m = <(BlockLocator, ChannelMonitor<TestChannelSigner>)>::read(&mut &bytes[..], (&*keys, &*keys))
+				.map_err(|e| format!("shadow monitor read failed: {:?}", e))?;
+			monitors.push((*cid, m.1));
+		}
+		let mut refs = new_hash_map();
+		for (cid, m) in monitors.iter() {
+			refs.insert(*cid, m);
+		}
+		let r = Arc::new(NoRouter);
+		let args = ChannelManagerReadArgs {
+			entropy_source: keys.clone(),
+			node_signer: keys.clone(),
+			signer_provider: keys.clone(),
+			fee_estimator: parts.fee.clone(),
+			chain_monitor: mon.clone(),
+			tx_broadcaster: parts.bc.clone(),
+			router: r.clone(),
+			message_router: r,
+			logger: logger.clone(),
+			config: cfg.clone(),
+			channel_monitors: refs,
+		};
+		let cm = <(BlockLocator, CM)>::read(&mut &manager_bytes[..], args).map_err(|e| format!("shadow manager read failed: {:?}", e))?.1;
+		let tip = (best_chain.len() - 1) as u32;
+		for (_, m) in monitors.iter() {
+			let from = m.current_best_block().height;
+			for h in (from + 1)..=tip {
+				let b = &best_chain[h as usize];
+				let txdata: Vec<(usize, &bitcoin::Transaction)> = b.txdata.iter().enumerate().collect();
+				m.block_connected(&b.header, &txdata, h, &*parts.bc, &*parts.fee, &logger);
+			}
+		}
+		{
+			use lightning::chain::Listen;
+			let from = cm.current_best_block().height;
+			for h in (from + 1)..=tip {
+				cm.block_connected(&best_chain[h as usize], h);
+			}
+		}
+		for (cid, m) in monitors.into_iter() {
+			mon.watch_channel(cid, m).map_err(|_| "watch_channel failed".to_string())?;
+		}
+		let cm = Arc::new(cm);
+		let id = cm.get_our_node_id();
+		let mut wk = [0x55u8; 32];
+		wk[0] = tag;
+		let wallet = Arc::new(TestWalletSource::new(bitcoin::secp256k1::SecretKey::from_slice(&wk).unwrap()));
+		let bumper = BumpTransactionEventHandlerSync::new(
+			parts.bc.clone(),
+			Arc::new(WalletSync::new(wallet.clone(), logger.clone())),
+			keys.clone(),
+			logger.clone(),
+		);
+		let durable_manager = manager_bytes.to_vec();
+		Ok(McNode {
+			mon_dirty: std::cell::Cell::new(true),
+			wallet,
+			bumper,
+			tag,
+			id,
+			keys,
+			bc: parts.bc,
+			fee: parts.fee,
+			logger,
+			persist: parts.persist,
+			chain_src: parts.chain_src,
+			mon,
+			cm,
+			cfg,
+			deferred: false,
+			durable_manager,
+			restarts: 0,
+		})
+	}
+
 	pub fn write_manager(&mut self) {
 		self.durable_manager = self.cm.encode();
 	}
